@@ -363,6 +363,9 @@ def gen_plan_c05(rng, tier, idx, opts):
         cfg = gen_config(rng, 24, [1, 1, 2, 3, 4, 5, 6, 8, 12], allow_none_name=True)
     plan = {"world": "runner", "config": cfg, "script": gen_script(rng, cfg), "clock_faults": gen_clock_faults(rng),
             "incarnations": [], "lookups": True}
+    lists = [k for k, v in cfg["fixed"].items() if isinstance(v, list)]
+    if lists and cfg["results_name"] is None and rng.random() < 0.6:
+        plan["mutating_user"] = lists[0]      # without a results file: saved parameters would (rightly) differ after the user's own edits
     nv = len(RW.variations_of(cfg))
     n = rng.choice([1, 1, 2, 2, 3, 4])
     has_name = cfg["results_name"] is not None
